@@ -223,6 +223,21 @@ func (g *Gen) hostileReq() *ReqSpec {
 	r := g.R
 	if r.Intn(8) == 0 {
 		kind := pick(r, []string{"SearchPromises", "SearchSchedules"})
+		if r.Intn(2) == 0 {
+			// a cursor exactly as the server issues it, accompanied by hostile search parameters
+			sid := int64(r.Intn(20))
+			var tok string
+			if kind == "SearchPromises" {
+				tok, _ = (&t_api.Cursor[t_api.SearchPromisesRequest]{Next: &t_api.SearchPromisesRequest{Id: "*", States: []promise.State{promise.Pending, promise.Resolved, promise.Rejected, promise.Timedout, promise.Canceled}, Tags: map[string]string{}, Limit: 2, SortId: &sid}}).Encode()
+			} else {
+				tok, _ = (&t_api.Cursor[t_api.SearchSchedulesRequest]{Next: &t_api.SearchSchedulesRequest{Id: "*", Tags: map[string]string{}, Limit: 2, SortId: &sid}}).Encode()
+			}
+			sp := &ReqSpec{Kind: kind, RawCursor: tok, Id: pick(r, []string{"*", "", "p*"}), Limit: pick(r, []int{-1, 0, 1, 101, 1<<31 - 1, -1 << 31}), Proto: pick(r, []string{"http", "grpc", "grpc"})}
+			if r.Intn(3) == 0 {
+				sp.States = []string{pick(r, []string{"pending", "bogus", ""})}
+			}
+			return sp
+		}
 		tok, forged := g.forgedCursor(kind)
 		return &ReqSpec{Kind: kind, RawCursor: tok, Forged: forged, Proto: pick(r, []string{"http", "grpc"})}
 	}
